@@ -139,7 +139,7 @@ func checkC01(e *Env) {
 	})
 
 	// the concurrent flavour of this monitor (C12 is the full treatment)
-	concCalls := e.concurrentSmoke(drv, "C01", e.smokePool("C01", "enc"), e.pick(2, 12), e.pick(300, 1500), e.smokeEncExact())
+	concCalls := e.concurrentSmoke(drv, "C01", e.smokePool("C01", "enc"), e.pick(8, 32), e.pick(300, 1500), e.smokeEncExact())
 
 	// completeness of the enumerated factors
 	possible, firstPositions, firstSeen := 0, 0, 0
